@@ -48,6 +48,12 @@ LINES = [
     '# c\x00omment\n',            # a NUL character with more text after it
     '\ufeff# bom\n',              # byte-order mark
     'n = "a\x00b"\n',             # NUL inside a string literal
+    '    \ty = x\n',               # blanks, then a tab: the tab advances to the next multiple of 8 (column 8, the same block as 8 blanks)
+    'def g(x):\n    \ty = x + 1\n        return y\n',
+    'def h(x):\n    y = 1\n    if x:\n    \ty = 2\n        y = 3\n    return y\n',
+    'k = f"{f\'a{1}\'}{\'b\'}"\n',  # an f-string nested in a replacement field, followed by an ordinary string
+    'j = f"{f\'a{1}\'}" + "c"\n',
+    "i = f'{1}' 'p' f\"{2}\"\n",
 ]
 CORE = [0, 2, 3, 4, 6, 7, 12, 13]
 
